@@ -1490,6 +1490,61 @@ def probe_pagecopy():
     return guard(ran["copy"]), guard(ran["files"])
 
 
+PAGENAME_PROBE = ["index.md", "plain.md", "release-1.2.md", "v2.0-notes.md", "sub.dir/index.md", "sub.dir/a.b.c.md", "sub.dir/deep/index.md",
+                  "sub.dir/deep/changes.2024.md"]
+
+
+def probe_pagename():
+    """How the three places that name a static page derive the name of its HTML file from the stem of the Markdown file:
+    `PageNode.url` (every link FORD writes to the page), `PagetreePage.outfile` (the file written) and `PagetreePage.loc`
+    (the search index URL) - observed on the real objects that the real `get_page_tree` builds for a scratch tree whose
+    file and directory names contain dots.  Each must be <base>/page/<location>/<name> with <name> = `with_suffix(".html")`
+    of the stem for all pages, or `<stem>.html` for all pages; anything else raises."""
+    import os
+    from pathlib import PurePosixPath
+    from types import SimpleNamespace
+    import ford.output as fo
+    from ford._markdown import MetaMarkdown
+    from ford.pagetree import get_page_tree
+
+    with common.scratch_dir("ford-c09-nameprobe-") as d:
+        d = Path(os.path.realpath(d))
+        out = d / "doc"
+        for rel in PAGENAME_PROBE:
+            f = d / "pages" / rel
+            f.parent.mkdir(parents=True, exist_ok=True)
+            f.write_text(f"---\ntitle: T {rel}\n---\n\ntext\n")
+        with common.quiet():
+            top = get_page_tree(d / "pages", [], out, MetaMarkdown(base_url=out))
+        if top is None:
+            raise LookupError("get_page_tree returns nothing for the page-name probe tree")
+        nodes = list(top)
+        got_src = sorted((str(n.location).replace(os.sep, "/") + "/" + str(n.filename)).removeprefix("./") for n in nodes)
+        if got_src != sorted(r[:-3] for r in PAGENAME_PROBE):
+            raise LookupError(f"get_page_tree: pages of the probe tree are {got_src}")
+        data = {"output_dir": out, "relative": True, "page_dir": d / "pages"}
+        proj = SimpleNamespace(settings=SimpleNamespace(project_url=out))
+        seen = {"url": [], "outfile": [], "loc": []}
+        for n in nodes:
+            pg = fo.PagetreePage(data, proj, n)
+            loc = [x for x in str(n.location).replace(os.sep, "/").split("/") if x not in (".", "")]
+            stem = str(n.filename)
+            for place, val, root in (("url", n.url, out), ("outfile", pg.outfile, out), ("loc", pg.loc, None)):
+                parts = list(Path(os.path.relpath(val, root)).parts) if root is not None else list(Path(val).parts)
+                if parts[:1] != ["page"] or parts[1:-1] != loc:
+                    raise LookupError(f"static page {'/'.join(loc + [stem])}.md: {place} is {val}, not <root>/page/<location>/<name>")
+                seen[place].append((stem, parts[-1]))
+    out_names = {}
+    for place, obs in seen.items():
+        if all(name == str(PurePosixPath(stem).with_suffix(".html")) for stem, name in obs):
+            out_names[place] = "withSuffix"
+        elif all(name == stem + ".html" for stem, name in obs):
+            out_names[place] = "appendHtml"
+        else:
+            raise LookupError(f"static pages: {place} names the HTML files {obs} - neither with_suffix('.html') nor <stem>.html")
+    return out_names
+
+
 def extract_pagecopy(repo: Path):
     """For which pages PagetreePage.writeout copies the `copy_subdir` directories / the plain files of the page directory -
     probed on the real method (renamed locals, reordered statements, helpers do not matter; what is written where does)."""
@@ -1499,7 +1554,7 @@ def extract_pagecopy(repo: Path):
     pn = ast.unparse(_func(ptree, "PageNode", "__init__"))
     if "self.copy_subdir = self.meta.copy_subdir or proj_copy_subdir" not in pn:
         raise LookupError("PageNode.copy_subdir is no longer `meta.copy_subdir or proj_copy_subdir`")
-    return {"copy_guard": copy_guard, "files_guard": files_guard}
+    return {"copy_guard": copy_guard, "files_guard": files_guard, "page_names": probe_pagename()}
 
 
 def lpieces(ps) -> str:
@@ -1611,9 +1666,11 @@ def to_lean(d: dict) -> str:
     L += ["    (%s, %s)%s  -- |%s| -> %s" % (lstr(a), lpieces(ps), "," if i < len(d["aliases"]) - 1 else "", a, show_pieces(ps) or "(root)")
           for i, (a, ps) in enumerate(d["aliases"])]
     L += ["  ]", "}", "",
-          "/-- PagetreePage.writeout: the guards of the loops over `self.obj.copy_subdir` and `self.obj.files` -/",
-          "def pageTables : Assets.PageTables := { copyGuard := Assets.CopyGuard.%s, filesGuard := Assets.CopyGuard.%s }" % (
-              d["copy_guard"], d["files_guard"])]
+          "/-- PagetreePage.writeout: the guards of the loops over `self.obj.copy_subdir` and `self.obj.files`;",
+          "    `names`: how PageNode.url / PagetreePage.outfile / PagetreePage.loc name the HTML file of a static page (probed) -/",
+          "def pageTables : Assets.PageTables := { copyGuard := Assets.CopyGuard.%s, filesGuard := Assets.CopyGuard.%s, "
+          "names := ⟨PageName.Naming.%s, PageName.Naming.%s, PageName.Naming.%s⟩ }  -- names: url, outfile, loc" % (
+              d["copy_guard"], d["files_guard"], d["page_names"]["url"], d["page_names"]["outfile"], d["page_names"]["loc"])]
     L += ["", "/-- the conversion sites that start from a reset Markdown converter (probed on the real pipeline) -/",
           "def mdTables : Footnotes.Tables := { resets := %s, resetsFirst := %s }" % (
               llist("Footnotes.Site." + x for x in d["md_resets"]), llist("Footnotes.Site." + x for x in d["md_resets_first"])),
